@@ -35,6 +35,11 @@ func (x *Exec) script(q *Query, quant bool, z3 bool, model bool) string {
 	}
 	b.WriteString(x.w.Prelude(quant))
 	b.WriteString(codecPrelude(quant))
+	b.WriteString(derPrelude(quant))
+	b.WriteString(cryptoPrelude())
+	if quant {
+		b.WriteString(cryptoPreludeQ())
+	}
 	for _, sp := range x.specText(quant) {
 		b.WriteString(sp)
 	}
